@@ -24,6 +24,9 @@ type c02Cfg struct {
 	// Scale > 1 divides every duration (window size, slide, timeout) and every distance of a timestamp from
 	// 10000 ms by Scale: Scale 4 gives 500 ms windows, whose bounds share wall-clock seconds
 	Scale int64 `json:"scale,omitempty"`
+	// Lazy: the whole script is emitted before any engine goroutine runs (a burst faster than the trigger
+	// goroutine); used by the burst unit, whose scripts are longer than the watermark channel (100)
+	Lazy bool `json:"lazy_feed,omitempty"`
 }
 
 func (c c02Cfg) scale() int64 {
@@ -176,7 +179,7 @@ func c02Deliveries(r detResult) []c02Del {
 }
 
 func c02Run(c c02Cfg, evs []c02Ev) detResult {
-	return detExec(c02SQL(c), detOpts{Eager: true, Horizon: 500 * vtime.Millisecond}, func(e *Env) {
+	return detExec(c02SQL(c), detOpts{Eager: !c.Lazy, Horizon: 500 * vtime.Millisecond}, func(e *Env) {
 		for _, ev := range evs {
 			e.Emit(c02Row(ev))
 		}
@@ -315,6 +318,60 @@ func c02Check(c c02Cfg, evs []c02Ev, ds []c02Del) (kind, what string) {
 	return "", ""
 }
 
+// c02Burst: in-order bursts longer than every fixed internal buffer (watermark channel 100, window output 50),
+// emitted before any engine goroutine runs: every on-time event must still be delivered once the engine has
+// caught up (the monitors only see the final deliveries: AtOps is the script length for all of them).
+func c02Burst() fw.Result {
+	a := newAcc("C02", "det-burst")
+	for _, kind := range []string{"tumbling", "sliding", "session"} {
+		for _, n := range []int{120, 260} {
+			for _, step := range []int64{100, 300} { // at most 40 windows: below the window output buffer (50), whose overflow legitimately drops results
+				c := c02Cfg{Kind: kind, OOOMs: 0, LateMs: 0, MaxL: n, Lazy: true, Pusher: kind == "session"}
+				var evs []c02Ev
+				for i := 0; i < n; i++ {
+					key := ""
+					if kind == "session" && i > 0 {
+						key = "b" // key a has one early event; key b's burst pushes the watermark past its session
+					}
+					evs = append(evs, c02Ev{ID: i + 1, TS: 10000 + int64(i)*step, Key: key})
+				}
+				r := c02Run(c, evs)
+				a.r.Evaluations++
+				a.r.States++
+				a.r.Transitions += int64(r.Steps)
+				a.r.Nontrivial++
+				cs := map[string]any{"cfg": c, "sql": c02SQL(c), "events": fmt.Sprintf("%d in-order events %d ms apart from 10000", n, step)}
+				if r.ExecErr != "" || r.Status != sched.StatusOK {
+					a.fail("C02|"+kind+"|burst|exec", r.ExecErr+" "+r.Status.String()+" "+firstLine(r.Panic), cs, nil, nil)
+					continue
+				}
+				ds := c02Deliveries(r)
+				a.outcome(fmt.Sprint(len(ds)))
+				delivered := map[int]int{}
+				for _, d := range ds {
+					for _, id := range d.IDs {
+						delivered[id]++
+					}
+				}
+				var lost []int
+				for _, e := range evs {
+					if delivered[e.ID] == 0 {
+						lost = append(lost, e.ID)
+					}
+				}
+				if len(lost) > 0 {
+					if len(lost) > 12 {
+						lost = lost[:12]
+					}
+					a.fail("C02|"+kind+"|burst|on-time-event-lost", fmt.Sprintf("%s: of %d in-order events emitted in one burst, events %v (...) are in no result after the engine went quiescent and the sentinel passed", c02SQL(c), n, lost), cs, nil, len(ds))
+				}
+			}
+		}
+	}
+	a.sample(map[string]any{"burst_lengths": []int{120, 260}, "steps_ms": []int{100, 300}, "kinds": "tumbling, sliding, session"})
+	return a.result()
+}
+
 func anyExplained(m map[int]bool) bool { return len(m) > 0 }
 
 func c02Canon(ds []c02Del, skip map[int]bool) string {
@@ -346,6 +403,7 @@ func (c02) Plan(tier string) []fw.Unit {
 			us = append(us, fw.Unit{Check: "C02", Kind: "enum", Tier: tier, Spec: fw.Spec(enumSpec{Cfg: i, Shard: s, Shards: shards})})
 		}
 	}
+	us = append(us, fw.Unit{Check: "C02", Kind: "burst", Tier: tier, Spec: fw.Spec(enumSpec{})})
 	for s := 0; s < 8; s++ {
 		us = append(us, fw.Unit{Check: "C02", Kind: "idle", Tier: tier, Spec: fw.Spec(enumSpec{Shard: s, Shards: 8})})
 	}
@@ -373,6 +431,9 @@ func (c02) Run(u fw.Unit) fw.Result {
 	}
 	if u.Kind == "idle" {
 		return c02Idle(u)
+	}
+	if u.Kind == "burst" {
+		return c02Burst()
 	}
 	sp := parseEnum(u)
 	c := c02Configs(u.Tier)[sp.Cfg]
